@@ -855,6 +855,21 @@ fn decode_int(data: &[u8]) -> (usize, &[u8]) {
     (x, &data[9..])
 }
 
+// Accessors for verification harnesses (compiled only with --cfg sux_verif)
+#[cfg(sux_verif)]
+impl<D: AsRef<[u8]>, P: AsRef<[usize]>> RearCodedList<D, P> {
+    /// Returns (k, len, is_sorted, data, pointers).
+    pub fn verif_parts(&self) -> (usize, usize, bool, &[u8], &[usize]) {
+        (
+            self.k,
+            self.len,
+            self.is_sorted,
+            self.data.as_ref(),
+            self.pointers.as_ref(),
+        )
+    }
+}
+
 #[cfg(test)]
 mod tests {
     use super::*;
